@@ -89,8 +89,12 @@ InitSrv == [serving |-> FALSE, closed |-> FALSE, done |-> FALSE, reg |-> {},
             lock |-> "", servePc |-> "none", serveCall |-> "", lisErr |-> FALSE,
             stopping |-> "", backlog |-> <<>>, accPc |-> "off", accConn |-> ""]
 
+CbNames == {"GetCapabilities", "OnOpenMessage", "OnEstablished", "Update", "OnClose"}
+
 InitGh == [sess |-> [p \in Peers |-> "none"],    \* direction whose session callbacks are open
            nsess |-> [p \in Peers |-> 0],          \* OnEstablished count
+           released |-> [p \in Peers |-> {}],      \* gates [n, k] the application has opened
+           ncb |-> [p \in Peers |-> [n \in CbNames |-> 0]],   \* invocations per callback
            bad |-> {}]                             \* names of violated ghost checks
 
 Init ==
@@ -155,6 +159,7 @@ OpCloseWriter   == [op |-> "closeWriter"]
 OpCbWrite(b)    == [op |-> "cbWrite", b |-> b]
 OpCbWriteRet(r) == [op |-> "cbWriteRet", r |-> r]
 OpArmCr         == [op |-> "armCr"]
+OpGate(n)       == [op |-> "gate", n |-> n]     \* the plugin callback n has not returned yet
 
 CbM(b, caps, rid) == [b |-> b, caps |-> caps, rid |-> rid]
 NoCbM == CbM(<<>>, <<>>, Zero4)
@@ -300,13 +305,18 @@ FsmStep(p, d) ==
                        [] op.n = "OnClose" -> gh.nsess[p]
                        [] op.n = "Update" -> f.sess
                        [] OTHER -> 0
+                \* a gated callback blocks (after having been entered) until the application releases it
+                \* (gate [n, k]: the k-th invocation of callback n)
+                g == [n |-> op.n, k |-> gh.ncb[p][op.n] + 1]
+                gated == (\E i \in 1..Len(cfg[p].gates) : cfg[p].gates[i] = g) /\ g \notin gh.released[p]
+                rest2 == IF gated THEN <<OpGate(g)>> \o rest ELSE rest
             IN
             /\ setF(CASE op.n = "OnEstablished" ->
-                           [f EXCEPT !.todo = rest, !.sess = k, !.nUpd = 0, !.wopen = TRUE]
-                      [] op.n = "Update" -> [f EXCEPT !.todo = rest, !.nUpd = @ + 1]
-                      [] OTHER -> [f EXCEPT !.todo = rest])
+                           [f EXCEPT !.todo = rest2, !.sess = k, !.nUpd = 0, !.wopen = TRUE]
+                      [] op.n = "Update" -> [f EXCEPT !.todo = rest2, !.nUpd = @ + 1]
+                      [] OTHER -> [f EXCEPT !.todo = rest2])
             /\ out' = Emit(out, Ev("cb", p, "", op.n, k, op.m, ""))
-            /\ gh' = GhCb(p, d, op.n)
+            /\ gh' = [GhCb(p, d, op.n) EXCEPT !.ncb[p][op.n] = @ + 1]
             /\ conn' = IF op.n = "OnOpenMessage" THEN [conn EXCEPT ![c].openSeen = TRUE] ELSE conn
             /\ UNCHANGED dial
        [] op.op \in {"cleanup", "closeOnly"} ->
@@ -376,6 +386,10 @@ FsmStep(p, d) ==
             /\ UNCHANGED <<conn, dial, gh>>
        [] op.op = "armCr" ->
             /\ setF([f EXCEPT !.todo = rest, !.crDl = Arm(cfg[p].connRetry)])
+            /\ UNCHANGED <<out, conn, dial, gh>>
+       [] op.op = "gate" ->
+            /\ op.n \in gh.released[p]
+            /\ setF([f EXCEPT !.todo = rest])
             /\ UNCHANGED <<out, conn, dial, gh>>
   /\ UNCHANGED <<cfg, srv, calls, pm, now>>
 
@@ -937,6 +951,10 @@ EnvReset(c) ==
   /\ c \in DOMAIN conn
   /\ conn' = [conn EXCEPT ![c].reset = TRUE, ![c].inbox = <<EvEOF>>, ![c].dead = FALSE]
   /\ UNCHANGED <<cfg, srv, calls, pm, fsm, dial, now, out, gh>>
+
+EnvRelease(p, n) ==      \* the application lets a held plugin callback return
+  /\ gh' = [gh EXCEPT !.released[p] = @ \cup {n}]
+  /\ UNCHANGED <<cfg, srv, calls, pm, fsm, conn, dial, now, out>>
 
 EnvLisFail ==
   /\ srv.accPc = "idle" /\ srv.servePc = "running"
